@@ -140,3 +140,12 @@ Proof.
   { unfold supported, wf_decode, interleaved. cbn. repeat (split || constructor); cbn; try lia; try discriminate; auto. }
   vm_compute. repeat split; try reflexivity. intros C. discriminate C.
 Qed.
+
+(* residual finding (not repaired by 0b05886): SCTE35.SetPTS stores s.pts un-truncated; with an over-wide argument PTS()
+   reports a value the next encoding cannot carry (the command's own pts_time is truncated) *)
+Definition setpts_script : list sig_op := [SSetCommandInfo 1 [KSetHasPTS true]; SSetPTS 8589934597].
+Lemma w_set_pts_overwide :
+  let st := run_script create_scte35 setpts_script in
+  s_pts st = 8589934597 /\ cmd_pts (s_cmd st) = 5 /\
+  exists sc, new_scte35 (0 :: fst (update_data st)) = Ok sc /\ s_pts sc = 5.
+Proof. vm_compute. repeat split. eexists. split; reflexivity. Qed.
